@@ -16,10 +16,21 @@ for sid in ids:
     if not os.path.exists(os.path.join(sd, "patch.diff")):
         continue
     t0 = time.time()
-    c = subprocess.run([os.path.join(V, "tools/confirm_seed.sh"), sd], capture_output=True, text=True)
-    confirm = (c.stdout.strip().splitlines() or ["CONFIRM ?"])[-1]
+    # --reuse-confirmation: a seed confirmed earlier (same patch file) is not confirmed again
+    import hashlib
+    ph = hashlib.sha256(open(os.path.join(sd, "patch.diff"), "rb").read()).hexdigest()[:16]
+    old = {}
+    try:
+        old = json.load(open(os.path.join(sd, "meta.json")))
+    except Exception:
+        pass
+    if "--reuse-confirmation" in sys.argv and old.get("confirmed") and old.get("patch_sha", ph) == ph and not os.path.exists(os.path.join(sd, "patch.orig-5cd99a9.diff")):
+        confirm = old["confirmation"]
+    else:
+        c = subprocess.run([os.path.join(V, "tools/confirm_seed.sh"), sd], capture_output=True, text=True, errors="replace")
+        confirm = (c.stdout.strip().splitlines() or ["CONFIRM ?"])[-1]
     ok = "suite=ok demo_with=fails demo_without=passes" in confirm
-    t = subprocess.run([os.path.join(V, "tools/try_seed.sh"), os.path.join(sd, "patch.diff")], capture_output=True, text=True)
+    t = subprocess.run([os.path.join(V, "tools/try_seed.sh"), os.path.join(sd, "patch.diff")], capture_output=True, text=True, errors="replace")
     out = t.stdout
     fired = re.findall(r"^FIRED: (.*)$", out, re.M)
     fired = fired[-1].split() if fired and fired[-1] != "none" else []
@@ -34,10 +45,11 @@ for sid in ids:
         pass
     meta = {
         "id": sid,
-        "harness_commit": subprocess.run(["git", "-C", V, "rev-parse", "--short", "HEAD"], capture_output=True, text=True).stdout.strip()
-                          + ("+uncommitted" if subprocess.run(["git", "-C", V, "status", "--porcelain", "harness", "check"], capture_output=True, text=True).stdout.strip() else ""),
-        "repo_commit": subprocess.run(["git", "-C", "/repo", "rev-parse", "--short", "HEAD"], capture_output=True, text=True).stdout.strip(),
+        "harness_commit": subprocess.run(["git", "-C", V, "rev-parse", "--short", "HEAD"], capture_output=True, text=True, errors="replace").stdout.strip()
+                          + ("+uncommitted" if subprocess.run(["git", "-C", V, "status", "--porcelain", "harness", "check"], capture_output=True, text=True, errors="replace").stdout.strip() else ""),
+        "repo_commit": subprocess.run(["git", "-C", "/repo", "rev-parse", "--short", "HEAD"], capture_output=True, text=True, errors="replace").stdout.strip(),
         "property": sid.split("-")[0],
+        "patch_sha": ph,
         "confirmed": ok,
         "confirmation": confirm,
         "what_i_ran": ["tools/confirm_seed.sh seeded/%s  (scratch worktree /tmp/wt_confirm: suite with patch, demo with patch, demo without patch)" % sid,
